@@ -87,7 +87,7 @@ class BaseDiscretizer(BaseEstimator, TransformerMixin):
         See `Discretizers examples <https://autocarver.readthedocs.io/en/latest/index.html>`_
         """
         # features and values
-        self.features = list(set(features))
+        self.features = list(dict.fromkeys(features))
         if values_orders is None:
             values_orders: dict[str, GroupedList] = {}
         self.values_orders = {
